@@ -19,25 +19,28 @@ from common import cz, cnat, cbool, clist
 
 LEVEL = "proof"
 THEOREMS = "Props/C14.v"
-EXTRA_TARGETS = ("Gen/HbondTables.vo", "Gen/HbondFormulas.vo", "Hbond/Run.vo")
+EXTRA_TARGETS = ("Gen/HbondTables.vo", "Gen/HbondFormulas.vo", "Hbond/Run.vo", "Hbond/KsWrap.vo")
 EXTS = ["_geometry"]
 RULE = ("synthetic systems: peptides of 2..15 residues from templates (GLY ALA SER THR LYS ASP ASN PRO, N/C termini, "
-        "waters, a ligand with N-H/O-H/O, residues with deleted backbone atoms), heavy atoms placed at random grid "
+        "waters, a ligand with N-H/O-H/O, residues with deleted backbone atoms, 15% of the residues under a name outside mdtraj's "
+        "amino-acid table (HIE HID CYX ASH HSD NALA CALA LIG XYZ) with their full backbone), heavy atoms placed at random grid "
         "points of a small cube so that many donor/acceptor pairs are close, hydrogens 0.1 nm from the parent aimed "
         "at a random acceptor or at random, 1..6 frames by per-frame jitter, optional orthorhombic box with atoms "
         "whole / group-wise shifted / atom-wise shifted by lattice vectors / wrapped atom by atom across a cell corner, crossed "
         "with periodic in {True, False} (so periodic=False WITH a cell and periodic=True WITHOUT one occur); real systems: residue windows of tests/data structures with hydrogens, jittered and "
-        "snapped to the grid; x freq in {0,0.1,0.5,0.99} x cutoffs +-30% x exclude_water x sidechain_only x periodic; "
-        "about a third of the aimed hydrogens are EXACTLY or nearly collinear with donor and acceptor (180 / 0 degrees); "
+        "snapped to the grid; x freq in {0,0.1,0.25,0.5,0.75,0.99,1} (exact ties occur) x distance cutoff +-30% x angle cutoff 30..170 deg x exclude_water x sidechain_only x periodic; "
+        "about a third of the aimed hydrogens are EXACTLY or nearly collinear with donor and acceptor (180 / 0 degrees); 10% of the "
+        "residues carry a second atom with a backbone name; the Kabsch-Sander residue records are derived by the model from the names; "
         "call histories: on ONE Topology/Trajectory object calls are interleaved with in-place edits that keep n_atoms and "
         "n_bonds (residue / atom renames, element changes, re-pointed bonds) and every call is compared with the model of the "
         "topology as it is at that moment; a case is non-trivial when mdtraj reports at least one bond; distinct by hash of (system, call)")
 TRUSTED = ["harness/impl/hbond_impl.py (builds the Topology/Trajectory from the JSON description, calls the public API)",
            "harness/shims/hbond_shim.cpp (exposes the static store_energies)",
            "generator harness/props/C14.py: element/water/sidechain flags of the model topology are derived here from "
-           "residue and atom names; comparison by vm_compute inside coqc",
-           "fixed-point evaluation (2^-44) of cos(angle_cutoff), of the hydrogen position and of the Kabsch-Sander energy in the "
-           "model: numerical, accuracy not proved (the Wernet-Nilsson cone uses proved rational enclosures instead)"]
+           "residue and atom names (the Kabsch-Sander residue records are derived by the model itself from the names, "
+           "coq/Hbond/KsWrap.v); comparison by vm_compute inside coqc",
+           "fixed-point evaluation (2^-44) of the hydrogen position and of the Kabsch-Sander energy in the model: numerical, "
+           "accuracy not proved (cos(angle_cutoff) and the Wernet-Nilsson cone use proved rational enclosures instead)"]
 ASSUMPTIONS = ["coordinates are multiples of 2^-10 nm (exact in float32); orthorhombic boxes only (triclinic minimum image is C05)",
                "triplets / donors whose geometry is within the guard band of a threshold (1e-5 nm, 2e-5 rad resp. 2e-5 nm for "
                "the cone; 2e-3 kcal/mol, 1e-4 nm^2 and second/third-best gap for Kabsch-Sander) are excluded and counted; for "
@@ -246,6 +249,8 @@ BACKBONE = {"C", "CA", "N", "O", "HA", "H"}
 PROTEIN = {"GLY", "ALA", "SER", "THR", "LYS", "ASP", "ASN", "PRO", "VAL", "LEU", "ILE", "MET", "PHE", "TYR", "TRP",
            "CYS", "GLU", "GLN", "ARG", "HIS", "ACE", "NME", "NLE"}
 WATER = {"H2O", "HHO", "HOH", "OH2", "OHH", "SOL", "TIP", "TIP2", "TIP3", "TIP4", "WAT"}
+# complete-backbone residues may carry these names; none of them is in mdtraj's _PROTEIN_RESIDUES (nor in PROTEIN above)
+NONTABLE_NAMES = ["HIE", "HID", "CYX", "ASH", "HSD", "NALA", "CALA", "LIG", "XYZ"]
 SIDE = {
     "GLY": ([], []),
     "ALA": ([("CB", "C")], [("CA", "CB")]),
@@ -299,13 +304,30 @@ def make_system(rng, nres=None, want_ks=True):
         pos = {a[0]: idx + k for k, a in enumerate(atoms)}
         for a, b in bl:
             bonds.append([pos[a], pos[b]])
+        # duplicate backbone names: a side-chain heavy atom carries the name of a backbone atom that comes earlier or
+        # later in the residue (the wrapper must take the FIRST atom with the name); bonds keep their atom indices
+        dup = None
+        if rng.random() < 0.10:
+            side = [k for k, a in enumerate(atoms) if a[0] not in BACKBONE and a[1] != "H" and not a[0].startswith("H")]
+            if side:
+                k = rng.choice(side)
+                dup = (k, rng.choice(["CA", "O", "C", "N"]))
         for a, b in bl:
             if b[0] == "H" and dict(atoms)[b] == "H":
                 parent[pos[b]] = pos[a]
         if prevC is not None and "N" in pos:
             bonds.append([prevC, pos["N"]])
         prevC = pos.get("C")
+        # residue names outside mdtraj's amino-acid table (force-field / protonation-state variants, arbitrary names) on a
+        # residue built from a protein template: whether it takes part in Kabsch-Sander bonds is decided by its backbone
+        # atoms, not by its name (for baker_hubbard / wernet_nilsson it is then not "protein": no side-chain atoms)
+        if rng.random() < 0.15:
+            name = rng.choice(NONTABLE_NAMES)
         residues.append({"name": name, "chain": chain, "atoms": [list(a) for a in atoms]})
+        if dup is not None:
+            # side-chain atoms follow the backbone in the templates: the duplicate is the LATER carrier of the name (or the
+            # only one when the genuine atom was deleted above: it then completes the residue)
+            residues[-1]["atoms"][dup[0]][0] = dup[1]
         idx += len(atoms)
     for _ in range(rng.choice([0, 0, 1, 2, 4])):
         chain_w = chain + 1
@@ -444,13 +466,13 @@ def ks_residues(sysd):
 def gen_calls(rng, tier):
     calls = []
     for _ in range(3 if tier == "quick" else 4):
-        c = {"fn": "baker_hubbard", "freq": rng.choice([0.0, 0.1, 0.5, 0.99]),
+        c = {"fn": "baker_hubbard", "freq": rng.choice([0.0, 0.1, 0.5, 0.99, 0.0, 0.1, 0.5, 1.0, 0.25, 0.75]),
              "exclude_water": rng.random() < 0.6, "periodic": rng.random() < 0.7, "sidechain_only": rng.random() < 0.25,
              "distance_cutoff": None, "angle_cutoff": None}
         if rng.random() < 0.6:
             c["distance_cutoff"] = rng.choice([0.175, 0.2, 0.25, 0.3, 0.325, 0.21875])
         if rng.random() < 0.6:
-            c["angle_cutoff"] = rng.choice([84, 100, 120, 135, 156, 90, 110.5])
+            c["angle_cutoff"] = rng.choice([84, 100, 120, 135, 156, 90, 110.5, 30, 60, 170])
         calls.append(c)
     for _ in range(1 if tier == "quick" else 2):
         calls.append({"fn": "wernet_nilsson", "exclude_water": rng.random() < 0.6, "periodic": rng.random() < 0.7,
@@ -542,7 +564,7 @@ def gen_history(rng, s, tier):
                     st = {"op": "rename_residue", "res": ri, "name": "W" if cur["residues"][ri]["name"] == "HOH" else "HOH"}
             elif kind == "residue":
                 ri = rng.randrange(len(cur["residues"]))
-                st = {"op": "rename_residue", "res": ri, "name": rng.choice(["PRO", "ALA", "XYZ", "GLY", "HOH"])}
+                st = {"op": "rename_residue", "res": ri, "name": rng.choice(["PRO", "ALA", "XYZ", "GLY", "HOH", "HIE", "CYX"])}
             elif kind == "atom":
                 swap = {"O": "OT1", "OT1": "O", "N": "NT", "NT": "N", "CA": "CX", "CX": "CA", "C": "CY", "CY": "C",
                         "H": "HN", "HN": "H", "OG": "O", "HA": "HB9"}
@@ -657,8 +679,14 @@ def copt_q(x):
 
 
 def coq_residues(sysd):
-    o = lambda i: "None" if i is None else "(Some %s)" % cnat(i)
-    return clist(["(mkRes %s %s %s %s %s)" % (o(n), o(ca), o(c), o(ox), cbool(p)) for n, ca, c, ox, p in ks_residues(sysd)])
+    """the residues as the topology presents them (residue name, [(atom index, atom name)]): the model derives the
+    N/CA/C/O indices, the proline flag and completeness itself (coq/Hbond/KsWrap.v prep = _prep_kabsch_sander_arrays)"""
+    out, idx = [], 0
+    for r in sysd["residues"]:
+        atoms = clist(["(%s, %s)" % (cnat(idx + k), common.cstr(name)) for k, (name, _el) in enumerate(r["atoms"])])
+        out.append("(%s, %s)" % (common.cstr(r["name"]), atoms))
+        idx += len(r["atoms"])
+    return "(prep %s)" % clist(out)
 
 
 BH_TY = "bool * bool * bool * (Z * Z) * option (Z * Z) * option (Z * Z) * (Z * Z) * (Z * Z) * Z * topo * list frame"
@@ -726,7 +754,7 @@ def cases_block(tag, ty_in, ty_out, fn, chk, cnt, cases):
 
 HEADER = """From Coq Require Import ZArith List String Bool Ascii.
 Import ListNotations.
-Require Import MD.Gen.HbondTables MD.Hbond.Model MD.Hbond.KsModel MD.Hbond.Run.
+Require Import MD.Gen.HbondTables MD.Hbond.Model MD.Hbond.KsModel MD.Hbond.KsWrap MD.Hbond.Run.
 Open Scope nat_scope.
 Open Scope Z_scope.
 """
@@ -970,7 +998,7 @@ def run_store(ctx):
 def correspond(ctx):
     quick = ctx.tier == "quick"
     # the executable model must be built even when a theorem file failed (make stops launching jobs after a failure)
-    ok, log = ctx.make(["Gen/HbondTables.vo", "Gen/HbondFormulas.vo", "Hbond/Run.vo"])
+    ok, log = ctx.make(["Gen/HbondTables.vo", "Gen/HbondFormulas.vo", "Hbond/Run.vo", "Hbond/KsWrap.vo"])
     if not ok:
         ctx.break_("build:Hbond/Run.vo", log)
     run_store(ctx)
